@@ -78,7 +78,7 @@ class SchedProp(Prop):
     def coq_row(self, case, obs):
         row = '(%s %s %s %s %s)' % (self.row_fn, SL.c_cfg(case['cfg']), SL.c_nodes0(case),
                                     SL.c_ops(obs['eff'], obs['snaps']), SL.c_iters(obs['eff'], obs['snaps']))
-        if SL.has_bad_occ(obs['snaps']):
+        if SL.has_bad_occ(obs['snaps']) or obs.get('died'):
             row = '(false :: tl %s)' % row
         if not case.get('disciplined', True):
             # releases of tasks that hold nothing: compare with the model only
